@@ -122,6 +122,19 @@ class SLock:
         return self.owner is not None
 
 
+def hook_locks(obj, sched, names=None):
+    """replace EVERY threading.Lock / RLock attribute of [obj] by a scheduler-aware lock, whatever it is called (C19-m7 renamed the filesystem
+    lock: a harness that looks for one attribute name stops owning the lock, and stops checking its discipline).  -> {attribute: SLock}"""
+    import threading
+    kinds = {type(threading.Lock()): False, type(threading.RLock()): True}
+    out = {}
+    for k, v in list(vars(obj).items()):
+        if type(v) in kinds:
+            out[k] = SLock(sched, (names or {}).get(k, k), reentrant=kinds[type(v)])
+            setattr(obj, k, out[k])
+    return out
+
+
 def run_threads(sched, fns, pyfat_dir=None, line_mode=False, timeout=60):
     """fns: list of callables (one per thread); returns list of results / exceptions"""
     results = [None] * len(fns)
